@@ -21,7 +21,11 @@ func hostOf(flowRel string) string {
 	return "h" + n + ".test"
 }
 
-// a flow answering every request to its own host with status 400+v
+// a flow answering every request to its own host with status 400+v; a request
+// carrying X-Pass: 1 is let through instead, tagged in its request phase with
+// the header x-cfg: v<v>, and its response is given the status 200+v in the
+// response phase -- so both phases of a transaction that goes to the upstream
+// tell which file content handled them
 func flowYAML(rel string, v int) string {
 	n := strings.TrimSuffix(filepath.Base(rel), ".yaml")
 	return fmt.Sprintf(`name: flow_%[1]s
@@ -40,6 +44,18 @@ processors:
         value: %[3]d
       - key: body
         value: version %[4]d of %[1]s
+  ReqTag_%[1]s:
+    processor: TransformAPICall
+    parameters:
+      - key: set
+        value:
+          "$.request.headers['x-cfg']": "v%[4]d"
+  RespTag_%[1]s:
+    processor: TransformAPICall
+    parameters:
+      - key: set
+        value:
+          "$.response.status_code": %[5]d
 flow:
   request:
     - from:
@@ -53,6 +69,12 @@ flow:
         processor:
           name: Pass_%[1]s
           condition: hit
+      to:
+        processor:
+          name: ReqTag_%[1]s
+    - from:
+        processor:
+          name: ReqTag_%[1]s
       to:
         stream:
           name: globalStream
@@ -72,7 +94,21 @@ flow:
         stream:
           name: globalStream
           at: end
-`, n, hostOf(rel), 400+v, v)
+    - from:
+        stream:
+          name: globalStream
+          at: start
+      to:
+        processor:
+          name: RespTag_%[1]s
+    - from:
+        processor:
+          name: RespTag_%[1]s
+      to:
+        stream:
+          name: globalStream
+          at: end
+`, n, hostOf(rel), 400+v, v, 200+v)
 }
 
 func badFlowYAML(rel string, kind int) string {
@@ -127,7 +163,11 @@ func metricsYAML(v int) string {
 }
 func badMetricsYAML() string { return "general_metrics: [unclosed\n  label_value: : :\n" }
 
-var statusRe = regexp.MustCompile(`key: status\s+value: (\d+)`)
+var (
+	statusRe  = regexp.MustCompile(`key: status\s+value: (\d+)`)
+	reqTagRe  = regexp.MustCompile(`x-cfg'\]": "(v\d+)"`)
+	respTagRe = regexp.MustCompile(`status_code": (\d+)`)
+)
 
 // register interns a content and, for flow files, records which verdict it produces.
 func (s *sut) register(area int, rel, content string) int {
@@ -135,6 +175,12 @@ func (s *sut) register(area int, rel, content string) int {
 	if area == aFlows {
 		if m := statusRe.FindStringSubmatch(content); m != nil {
 			s.verdict[rel+"#"+m[1]] = t
+		}
+		if m := reqTagRe.FindStringSubmatch(content); m != nil {
+			s.verdict[rel+"#req#"+m[1]] = t
+		}
+		if m := respTagRe.FindStringSubmatch(content); m != nil {
+			s.verdict[rel+"#resp#"+m[1]] = t
 		}
 	}
 	return t
@@ -325,6 +371,21 @@ func (g *gen) fixed(s *sut) []triple {
 			g.dirEntry(s, aQuotas, "newsub/q4.yaml", quotaYAML("q4.yaml", 1), true),
 			g.badFlowEntry(s, 2, 1)}})
 	}
+	// a payload name that is a directory of the disk (quotas/sub holds q3.yaml), and names
+	// of one payload that are prefixes of each other
+	for _, h := range []string{"configuration", "apply_flows"} {
+		out = append(out, triple{"name-is-an-existing-sub-directory", h, http.MethodPut, true, withSub(), []PEntry{
+			g.dirEntry(s, aQuotas, "sub", quotaYAML("sub.yaml", 1), true), g.flowEntry(s, 2, 2, true)}})
+		out = append(out, triple{"name-is-an-existing-sub-directory-bad-flow", h, http.MethodPut, true, withSub(), []PEntry{
+			g.dirEntry(s, aQuotas, "sub", quotaYAML("sub.yaml", 1), true), g.badFlowEntry(s, 2, 1)}})
+		out = append(out, triple{"name-below-an-existing-file", h, http.MethodPut, true, g.baseDisk(s, 1), []PEntry{
+			g.dirEntry(s, aQuotas, "q1.yaml/x.yaml", quotaYAML("x.yaml", 1), true), g.flowEntry(s, 2, 2, true)}})
+		out = append(out, triple{"name-two-levels-below-an-existing-file", h, http.MethodPut, true, g.baseDisk(s, 1), []PEntry{
+			g.dirEntry(s, aQuotas, "q1.yaml/deep/x.yaml", quotaYAML("x.yaml", 1), true), g.badFlowEntry(s, 2, 1)}})
+		out = append(out, triple{"names-prefix-of-each-other", h, http.MethodPut, true, g.baseDisk(s, 1), []PEntry{
+			g.dirEntry(s, aPathParams, "a", pathParamsYAML("a.yaml", 1), true),
+			g.dirEntry(s, aPathParams, "a/b.yaml", pathParamsYAML("b.yaml", 1), true)}})
+	}
 	for _, h := range []string{"configuration", "apply_flows"} {
 		out = append(out, triple{"not-json", h, http.MethodPut, false, g.baseDisk(s, 1), nil})
 		out = append(out, triple{"wrong-method", h, http.MethodPost, true, g.baseDisk(s, 1),
@@ -491,9 +552,29 @@ func generate(o *c.Out, s *sut) {
 			continue
 		}
 		n := len(k.HookSeq)
+		// directories are not part of the modelled disk: when a payload name is a
+		// directory that the clean-up has just emptied, storeFileOnDisk's os.Remove
+		// drops it; a fault injected into that very removal leaves the empty
+		// directory in place and os.Create fails on it, which the model (files
+		// only) cannot tell -- that one fault point is not exercised
+		dirTarget := map[PathRef]bool{}
+		for _, l := range k.Landings {
+			if l.ShaBefor != "directory" {
+				continue
+			}
+			for _, e := range k.Payload {
+				if e.Src == l.Src && e.Name == l.Name {
+					dirTarget[PathRef{e.TArea, e.TRel}] = true
+				}
+			}
+		}
 		for f := 0; f < n; f++ {
 			// hook calls a failing run makes beyond those of the fault-free run belong
 			// to its roll-back; the single fault is spent by then, nothing to add
+			if h := k.HookSeq[f]; h.Point == "fs.remove" && dirTarget[PathRef{h.Area, h.Rel}] {
+				o.Count("fault_skipped=removal-of-an-emptied-directory")
+				continue
+			}
 			s.runCase(o, s.caseOf(t, f))
 		}
 	}
